@@ -1,7 +1,5 @@
-// C02 — igris::vector (vector.h) against std::vector: BFS universes. (The large-vector tree checks and the
-// flat_map / flat_set universes of the same executable live in c02_main_large.cpp / c02_main_flat.cpp: three
-// TUs compile in parallel.)
-#include "c02_vector.hpp"
+// C02 — igris::vector (vector.h): large-size tree checks (see c02_large.hpp). Linked into c02_main.
+#include "c02_large.hpp"
 #include <igris/container/vector.h>
 
 namespace
@@ -15,5 +13,4 @@ namespace
 
 }
 
-MC_INIT { c02::register_vectors<VecTraits>(); }
-MC_MAIN
+MC_INIT { c02::register_large_vectors<VecTraits>(); }
